@@ -17,6 +17,10 @@ Theorem C03_code_error_conversions_keep_the_class :
   leaves_unchanged Boxed_from_kind = true.
 Proof. exact error_conversions_keep_the_class. Qed.
 
+(* 1c. the error of a failed load names the id that was asked for and carries the loader's error *)
+Theorem C03_code_load_error_names_the_asked_id : wraps_with_own_id Inner_of_asset_load_entry = true.
+Proof. exact load_error_names_the_asked_id. Qed.
+
 (* 2. Precedence: decoding error > other I/O error > not found > no default value. *)
 Theorem C03_or_prefers_the_higher_class : forall a b, class (or a b) = N.max (class a) (class b).
 Proof. exact or_class. Qed.
